@@ -2,7 +2,7 @@
    only; every proof is `exact`.  The percent-quoting table is [gen_to_quote], regenerated from
    /repo/gffutils/parser.py on every run. *)
 From GV Require Import Base.Prelude Base.PyStr Base.Utf8 Model.DB Model.Parser Model.Grammar Gen.GenConst
-  Proofs.GenConstEquiv Proofs.C08Proofs Proofs.C08Round.
+  Proofs.GenConstEquiv Proofs.C08Proofs Proofs.C08Round Proofs.C08Gtf.
 Open Scope N_scope.
 
 (* percent-encoding is inverted by unquote for EVERY string over all code points *)
@@ -22,6 +22,14 @@ Theorem C08_roundtrip_gff3 : forall D m, gff3_style D = true -> mapping_ok m = t
   split_with D (reconstruct gen_to_quote m D false false) = Ok m.
 Proof. rewrite gen_to_quote_eq. exact l_roundtrip_gff3. Qed.
 Print Assumptions C08_roundtrip_gff3.
+
+(* ... and for all 12 standard GTF dialects (key, space, quoted value; three field separators x
+   trailing semicolon x repeated keys): values free of semicolon, double quote, comma and control
+   characters - spaces anywhere, '=', '%', unicode are fine *)
+Theorem C08_roundtrip_gtf : forall D m, gtf_standard D = true -> gtf_mapping_ok m = true ->
+  split_with D (reconstruct gen_to_quote m D false false) = Ok m.
+Proof. rewrite gen_to_quote_eq. exact l_roundtrip_gtf. Qed.
+Print Assumptions C08_roundtrip_gtf.
 
 (* totality of the supplied-dialect path: no string makes it raise (for a dialect whose
    separators are non-empty); the inference path [split_infer] is a total function whose only
